@@ -414,12 +414,12 @@ func solverCmd(name, file string, timeout time.Duration) *exec.Cmd {
 	panic("solver " + name)
 }
 
-func runSolver(name, file string, timeout time.Duration) (string, string, float64) {
+func runSolverCtx(ctx context.Context, name, file string, timeout time.Duration) (string, string, float64) {
 	t0 := time.Now()
-	ctx, cancel := context.WithTimeout(context.Background(), timeout+3*time.Second)
+	cctx, cancel := context.WithTimeout(ctx, timeout+3*time.Second)
 	defer cancel()
 	c := solverCmd(name, file, timeout)
-	cmd := exec.CommandContext(ctx, c.Path, c.Args[1:]...)
+	cmd := exec.CommandContext(cctx, c.Path, c.Args[1:]...)
 	var out bytes.Buffer
 	cmd.Stdout = &out
 	cmd.Stderr = &out
@@ -429,7 +429,9 @@ func runSolver(name, file string, timeout time.Duration) (string, string, float6
 	first := strings.TrimSpace(strings.SplitN(text, "\n", 2)[0])
 	switch {
 	case first == "unsat" || first == "sat" || first == "unknown":
-	case strings.Contains(first, "timeout") || ctx.Err() != nil || strings.Contains(text, "interrupted by timeout"):
+	case ctx.Err() != nil:
+		first = "cancelled"
+	case strings.Contains(first, "timeout") || cctx.Err() != nil || strings.Contains(text, "interrupted by timeout"):
 		first = "timeout"
 	default:
 		first = "error"
@@ -437,27 +439,78 @@ func runSolver(name, file string, timeout time.Duration) (string, string, float6
 	return first, text, d
 }
 
+// solve races the first two solvers of the order against each other (first definite answer wins, the other is
+// killed) and falls back to the remaining ones sequentially.
 func (sv *Solver) solve(q string, order []string) SolveResult {
 	h := sha256.Sum256([]byte(q))
 	file := filepath.Join(sv.scratch, fmt.Sprintf("q%x.smt2", h[:8]))
 	os.WriteFile(file, []byte(q), 0644)
 	res := SolveResult{Status: "unknown", File: file}
-	for _, name := range order {
-		st, out, d := runSolver(name, file, sv.timeout)
-		res.Tried = append(res.Tried, fmt.Sprintf("%s:%s:%.2fs", name, st, d))
-		res.Time += d
+	type ans struct {
+		name, st, out string
+		d            float64
+	}
+	note := func(a ans) {
+		res.Tried = append(res.Tried, fmt.Sprintf("%s:%s:%.2fs", a.name, a.st, a.d))
+		if a.st == "cancelled" {
+			return
+		}
+		res.Time += a.d
+		if res.Output == "" || a.st == "error" {
+			res.Output = a.out
+		}
+		if a.st == "timeout" && res.Status == "unknown" {
+			res.Status = "timeout"
+		}
+		if a.st == "error" {
+			res.Status = "error"
+		}
+	}
+	race := order
+	var rest []string
+	if len(order) > 2 {
+		race, rest = order[:2], order[2:]
+	}
+	// quick attempt with the preferred solver alone; most queries finish in milliseconds
+	st, out, d := runSolverCtx(context.Background(), race[0], file, 2*time.Second)
+	if st == "unsat" || st == "sat" {
+		res.Status, res.Solver, res.Output, res.Time = st, race[0], out, d
+		res.Tried = append(res.Tried, fmt.Sprintf("%s:%s:%.2fs", race[0], st, d))
+		return res
+	}
+	note(ans{race[0], st, out, d})
+	ctx, cancel := context.WithCancel(context.Background())
+	ch := make(chan ans, len(race))
+	for _, name := range race {
+		go func(name string) {
+			st, out, d := runSolverCtx(ctx, name, file, sv.timeout)
+			ch <- ans{name, st, out, d}
+		}(name)
+	}
+	var winner *ans
+	for i := 0; i < len(race); i++ {
+		a := <-ch
+		if winner == nil && (a.st == "unsat" || a.st == "sat") {
+			w := a
+			winner = &w
+			cancel()
+			res.Tried = append(res.Tried, fmt.Sprintf("%s:%s:%.2fs", a.name, a.st, a.d))
+			res.Time += a.d
+			continue
+		}
+		note(a)
+	}
+	cancel()
+	if winner != nil {
+		res.Status, res.Solver, res.Output = winner.st, winner.name, winner.out
+		return res
+	}
+	for _, name := range rest {
+		st, out, d := runSolverCtx(context.Background(), name, file, sv.timeout)
+		note(ans{name, st, out, d})
 		if st == "unsat" || st == "sat" {
 			res.Status, res.Solver, res.Output = st, name, out
 			return res
-		}
-		if res.Output == "" || st == "error" {
-			res.Output = out
-		}
-		if st == "timeout" && res.Status == "unknown" {
-			res.Status = "timeout"
-		}
-		if st == "error" {
-			res.Status = "error"
 		}
 	}
 	return res
